@@ -80,6 +80,17 @@ func c13BaseScenarios() []*c13Base {
 		}
 		out = append(out, b)
 	}
+	// 5. MPEG-TS, one playlist, segments addressed as byte ranges of one resource
+	{
+		st, err := c10Build(c10Case{Container: "ts", Tracks: "va", Frags: 1, Range: true, PDT: true, VOD: true, NSeg: 3})
+		if err != nil {
+			panic(err)
+		}
+		b := &c13Base{name: "ts-range", entry: "r0.m3u8", res: map[string][]byte{}}
+		b.res["r0.m3u8"] = []byte(st.playlist(0))
+		b.res["r0_all"] = st.rends[0].all
+		out = append(out, b)
+	}
 	// 4. MPEG-TS, multivariant, video + audio rendition (the rendition has its own downloader and MPEG-TS processor)
 	{
 		st, err := c10Build(c10Case{Container: "ts", Tracks: "v+a", Frags: 1, PDT: true, VOD: true, NSeg: 3})
@@ -212,6 +223,22 @@ func c13Apply(base *c13Base, m c13Mut) ([]byte, bool) {
 			lines = append(lines[:m.Arg+1:m.Arg+1], append([]string{lines[m.Arg]}, lines[m.Arg+1:]...)...)
 		}
 		return []byte(strings.Join(lines, "\n")), true
+	case "strip-offset":
+		// the k-th EXT-X-BYTERANGE line (all of them for k < 0) loses its "@offset"
+		lines := strings.Split(string(b), "\n")
+		k := 0
+		hit := false
+		for i, l := range lines {
+			if !strings.HasPrefix(l, "#EXT-X-BYTERANGE:") {
+				continue
+			}
+			if at := strings.IndexByte(l, '@'); at >= 0 && (m.Arg < 0 || m.Arg == k) {
+				lines[i] = l[:at]
+				hit = true
+			}
+			k++
+		}
+		return []byte(strings.Join(lines, "\n")), hit
 	}
 	return nil, false
 }
@@ -408,6 +435,11 @@ func c13Mutations(base *c13Base, tier string) []c13Mut {
 			}
 			for i := range c13Texts() {
 				out = append(out, c13Mut{Base: base.name, Res: res, Kind: "text", Arg: i, Desc: fmt.Sprintf("corpus text %d", i)})
+			}
+			if n := strings.Count(string(body), "#EXT-X-BYTERANGE:"); n > 0 {
+				for k := -1; k < n; k++ {
+					out = append(out, c13Mut{Base: base.name, Res: res, Kind: "strip-offset", Arg: k, Desc: fmt.Sprintf("byte range %d without offset (-1: all)", k)})
+				}
 			}
 			continue
 		}
